@@ -281,6 +281,18 @@ pub fn run() -> i32 {
                 }
             }
         }
+        for (shape, top) in [(0u8, 3u8), (1, 12), (2, 6)] {
+            for idx in 0..=top {
+                for bad in [255u8, 0, 1, 2] {
+                    crate::sym::load(vec![vec![shape], vec![idx], vec![bad]]);
+                    n += 1;
+                    if std::panic::catch_unwind(|| crate::node::c18_structure()).is_err() {
+                        c11_bad += 1;
+                        eprintln!("SELFTEST-FAIL: c18_structure: shape={} index={} failing={}", shape, idx, bad);
+                    }
+                }
+            }
+        }
         for code in 0..8u8 {
             crate::sym::load(vec![vec![code]]);
             n += 1;
